@@ -348,7 +348,9 @@ impl Rewrite for ast::Attribute {
                     && meta.has_name(sym::doc)
                     && !comment_follows_on_line(context, self.span)
                 {
-                    if let Some(ref literal) = meta.value_str() {
+                    if let Some(ref literal) = meta.value_str().filter(|literal| {
+                        survives_as_line_doc_comment(literal.as_str(), self.style)
+                    }) {
                         let comment_style = match self.style {
                             ast::AttrStyle::Inner => CommentStyle::Doc,
                             ast::AttrStyle::Outer => CommentStyle::TripleSlash,
@@ -521,6 +523,15 @@ fn comment_follows_on_line(context: &RewriteContext<'_>, span: Span) -> bool {
         .span_to_snippet(rest)
         .and_then(|s| s.lines().next())
         .is_some_and(|line| line.trim_start().starts_with('/'))
+}
+
+/// Whether every line of a doc attribute's value still is documentation behind `///`: a line
+/// that starts with a slash would read `////…`, which is an ordinary comment.
+fn survives_as_line_doc_comment(literal: &str, style: ast::AttrStyle) -> bool {
+    match style {
+        ast::AttrStyle::Inner => true,
+        ast::AttrStyle::Outer => !literal.lines().any(|line| line.starts_with('/')),
+    }
 }
 
 fn attr_prefix(attr: &ast::Attribute) -> &'static str {
